@@ -592,6 +592,9 @@ nni_sock_create(nni_sock **sp, const nni_proto *proto)
 
 	if (((rv = nni_msgq_init(&s->s_uwq, 0)) != 0) ||
 	    ((rv = nni_msgq_init(&s->s_urq, 1)) != 0)) {
+		// The protocol state has not been initialized yet, so
+		// the protocol must not be asked to finalize it.
+		s->s_data = NULL;
 		sock_destroy(s);
 		return (rv);
 	}
